@@ -3,4 +3,4 @@ From Coq Require Import ExtrOcamlBasic ZArith NArith.
 From ZV Require Import Recover.Consts Recover.Path.
 Extraction Language OCaml.
 Extraction "model.ml" Z.of_N N.of_nat Nat.add init_state step run run_from listing recover_state recover
-  choose_snapshot read_all image inflight ready_records mkConfig mkReady.
+  choose_snapshot read_all image inflight sched_holds ready_records mkConfig mkReady.
